@@ -71,6 +71,19 @@ func runFsErr(c *Ctx) {
 					}
 				}
 			}
+			if rs, ok := r.Node().(*ast.ReturnStmt); ok && errObj == nil {
+				// `return os.Rename(a, b)`: the error goes to the caller as it is
+				direct := false
+				for _, res := range rs.Results {
+					if ast.Unparen(res) == ast.Expr(call) {
+						direct = true
+					}
+				}
+				if direct {
+					c.OK(key, call.Pos(), "the error is returned to the caller as it is")
+					return
+				}
+			}
 			if errObj == nil {
 				c.Bad(key, call.Pos(), "the error of os."+fn.Name()+" is discarded: an output path that cannot be created is not reported, and the transfer can still end in success")
 				return
@@ -821,6 +834,56 @@ func runResendGate(c *Ctx) {
 			})
 			c.Check(set, fmt.Sprintf("resend-gate/need-end/%s#%d", f.Name, nNeed), as.Pos(), "needEnd is set where the loaded bitmap reduced remaining",
 				"remaining is reduced by the recorded chunks without marking the file as resumed (needEnd): it is finalised on its last missing chunk although a re-send may follow")
+			// ... and set whenever anything was skipped: the value follows from `skipped > 0` alone (round 8)
+			sub := StripConv(info, as.Rhs[0]).(*ast.BinaryExpr).Y
+			subObj := ObjOf(info, StripConv(info, sub))
+			f.CFG().EachNode(func(r2 NodeRef) {
+				a2, ok := r2.Node().(*ast.AssignStmt)
+				if !ok || len(a2.Lhs) != 1 || !fieldNamed(info, a2.Lhs[0], "needEnd") || !(f.CFG().Reaches(r, r2) || f.CFG().Reaches(r2, r)) || types.ExprString(a2.Rhs[0]) == "false" {
+					return
+				}
+				var positive func(e ast.Expr) bool
+				positive = func(e ast.Expr) bool {
+					e = ast.Unparen(e)
+					if types.ExprString(e) == "true" {
+						return true
+					}
+					be, ok := e.(*ast.BinaryExpr)
+					if !ok {
+						if id, ok := e.(*ast.Ident); ok {
+							for _, d := range resolveExprsAll(f, id) {
+								if !positive(d) {
+									return false
+								}
+							}
+							return len(resolveExprsAll(f, id)) > 0
+						}
+						return false
+					}
+					switch be.Op {
+					case token.LOR:
+						return positive(be.X) || positive(be.Y)
+					case token.LAND:
+						return positive(be.X) && positive(be.Y)
+					case token.GTR, token.NEQ:
+						if v, ok := constInt(info, be.Y); ok && v == 0 && subObj != nil && ObjOf(info, StripConv(info, be.X)) == subObj {
+							return true
+						}
+					case token.GEQ:
+						if v, ok := constInt(info, be.Y); ok && v == 1 && subObj != nil && ObjOf(info, StripConv(info, be.X)) == subObj {
+							return true
+						}
+					case token.LSS:
+						if v, ok := constInt(info, be.X); ok && v == 0 && subObj != nil && ObjOf(info, StripConv(info, be.Y)) == subObj {
+							return true
+						}
+					}
+					return false
+				}
+				c.Check(positive(a2.Rhs[0]), fmt.Sprintf("resend-gate/need-end/%s#%d/whenever-skipped", f.Name, nNeed), a2.Pos(), "needEnd holds whenever recorded chunks were skipped",
+					"needEnd = "+types.ExprString(a2.Rhs[0])+" can be false although recorded chunks were skipped: the sender re-sends the highest recorded chunk after a failed hash comparison, that chunk is not among the missing ones, "+
+						"and FileEnd travels on another stream than the chunk - a file with nothing missing is finalised by FileEnd alone, the corrected chunk is dropped as a late duplicate and the damaged one stays in a tree reported as delivered")
+			})
 		})
 	}
 }
